@@ -1,0 +1,9 @@
+//! Verification facade (cargo feature `verif`).
+//!
+//! Thin `pub` wrappers around crate-private mechanisms so that the external
+//! verification harness in /verif can drive them. No logic lives here.
+
+/// Compiler-determined layout constants the formal model is regenerated from.
+pub fn consts() -> Vec<(&'static str, u64)> {
+    Vec::new()
+}
